@@ -21,8 +21,28 @@ Case(t) ==
                <<"C13: JSON with comments is not minified to its comment- and whitespace-free form", t>>)
      /\ (Emit => PrintT(ToJson(<<"M", t, out, valid>>)))
 
+\* ---- byte tables ("table"): which bytes are transparent inside a line comment, inside a block comment, and copied inside a string.
+\* The machine treats these bytes one at a time (SkipOneLine, SkipMultiLine, MinString), so the tables determine every comment / string
+\* body made of them: checked here on a sample of triples, applied by the driver to all 16.6 million triples per context.
+LinePat(x) == <<91, 49, 44, 47, 47>> \o x \o <<116, 10, 50, 93>>            \* [1,//<x>t\n2]
+BlockPat(x) == <<91, 49, 44, 47, 42>> \o x \o <<116, 42, 47, 50, 93>>        \* [1,/*<x>t*/2]
+StrPat(x) == <<91, 34, 97>> \o x \o <<98, 34, 32, 93>>                       \* ["a<x>b" ]
+Out12 == <<91, 49, 44, 50, 93>>
+LineOk(x) == MinText(MinifyRun(LinePat(x))) = Out12
+BlockOk(x) == MinText(MinifyRun(BlockPat(x))) = Out12
+\* a backslash pairs with the byte after it: it is copied too, but not byte-wise, and stays out of the table
+StrOk(x) == (\A i \in DOMAIN x : x[i] # 92) /\ MinText(MinifyRun(StrPat(x))) = <<91, 34, 97>> \o x \o <<98, 34, 93>>
+TSample == {1, 9, 10, 13, 32, 34, 42, 47, 92, 97, 128, 168, 169, 226, 255}
+TableLemma == \A c1 \in TSample : \A c2 \in TSample : \A c3 \in {10, 42, 47, 97, 168, 226} :
+                /\ (LineOk(<<c1>>) /\ LineOk(<<c2>>) /\ LineOk(<<c3>>)) => LineOk(<<c1, c2, c3>>)
+                /\ (BlockOk(<<c1>>) /\ BlockOk(<<c2>>) /\ BlockOk(<<c3>>) /\ ~(c1 = 42 /\ c2 = 47) /\ ~(c2 = 42 /\ c3 = 47)) => BlockOk(<<c1, c2, c3>>)
+                /\ (StrOk(<<c1>>) /\ StrOk(<<c2>>) /\ StrOk(<<c3>>)) => StrOk(<<c1, c2, c3>>)
+EmitTable == /\ Assert(TableLemma, "the minifier is not byte-wise on comment / string bodies")
+             /\ Assert(\A c \in 1..255 : (LineOk(<<c>>) <=> c # 10) /\ BlockOk(<<c>>) /\ (StrOk(<<c>>) <=> c \notin {34, 92}), "unexpected transparency table")
+             /\ (Emit => PrintT(ToJson(<<"N", [c \in 1..255 |-> IF LineOk(<<c>>) THEN 1 ELSE 0], [c \in 1..255 |-> IF BlockOk(<<c>>) THEN 1 ELSE 0], [c \in 1..255 |-> IF StrOk(<<c>>) THEN 1 ELSE 0]>>)))
+
 Init == (IF U = "big" THEN s \in BigMinifyTexts ELSE s = <<>>) /\ cnt = 0      \* "big": every byte value in every position, long strings/comments (no growth)
-Next == cnt < MaxLen /\ \E u \in Units : s' = s \o u /\ cnt' = cnt + 1
-InvCase == Case(s)
+Next == U # "table" /\ cnt < MaxLen /\ \E u \in Units : s' = s \o u /\ cnt' = cnt + 1
+InvCase == IF U = "table" THEN EmitTable ELSE Case(s)
 View == s
 =============================================================================
